@@ -466,6 +466,44 @@ plan('C17', jobs=_c17,
      design_ref='DESIGN.md section 3, C17')
 
 
+def G(prop, label, cmd, control_cmd, tdir, timeout=1800):
+    return dict(prop=prop, label=label, gate=True, cmd=cmd, control_cmd=control_cmd, tdir=tdir, timeout=timeout, variant='gate', cost=50)
+
+
+def _c06(tier):
+    jobs = [
+        J('C06', 'dbg/default', 'dbg', 'eng_noheap', '', 4, q(tier, 250_000, 8_000_000)),
+        J('C06', 'rel/default', 'rel', 'eng_noheap', '', 4, q(tier, 750_000, 25_000_000)),
+        J('C06', 'dbg/std-feature', 'dbg-std', 'eng_noheap', '', 4, q(tier, 250_000, 8_000_000)),
+        J('C06', 'rel/std-feature', 'rel-std', 'eng_noheap', '', 4, q(tier, 750_000, 25_000_000)),
+        G('C06', 'no_std build (core only, target x86_64-unknown-none)',
+          ['cargo', '+nightly', 'build', '--lib', '--offline', '-Zbuild-std=core', '--target', 'x86_64-unknown-none'],
+          ['cargo', 'build', '--lib', '--offline'], 'nostd'),
+    ]
+    if tier == 'thorough':
+        jobs.append(J('C06', 'miri/default', 'miri', 'eng_noheap', '--max-steps 24', 8, 1500, light=True, timeout=7200))
+    return jobs
+
+
+plan('C06', jobs=_c06,
+     rule='A case is one allocation window: one public operation executed between two reads of a counting global allocator (alloc, alloc_zeroed, realloc, dealloc), with nothing else in between. 56 window kinds cover construction (new, default, From<[_;N]>, collect), every Map operation (insert*, lookups, indexing, removals, retain, clear, drain, all borrowing and consuming iterators, the entry API, get_disjoint_mut, clone, ==, Debug/Display of the map and of its iterators into a fixed-buffer sink, drop) and every Set operation (incl. all set-algebra iterators walked with size_hint/count, predicates, `-`, extend by value and by reference), in random histories over element types that cannot allocate (u32, 128-byte array key, 512-byte array value, zero-sized), capacities 0..16, with micromap built with default features AND with the std feature. Operations expected to panic are never put in a window. In addition every reference handed out is range-checked against the container value. Distinct by (history fingerprint); every window is non-trivial.',
+     required=['Map::new', 'Map::default', 'Map::from(array)', 'Map::from_iter(array)', 'insert', 'insert_key_value', 'checked_insert', 'get', 'get_mut', 'get_key_value', 'contains_key', 'index',
+               'index_mut', 'remove', 'remove_entry', 'retain', 'clear', 'drain', 'iter', 'iter_mut', 'keys', 'values', 'values_mut', 'into_iter', 'into_keys', 'into_values', 'entry.or_insert',
+               'entry.or_insert_with', 'entry.and_modify.or_default', 'entry.occupied|vacant', 'get_disjoint_mut', 'clone', 'eq', 'fmt', 'drop(map)', 'Set::new', 'Set::from(array)', 'Set::insert',
+               'Set::replace', 'Set::contains', 'Set::get', 'Set::remove', 'Set::take', 'Set::retain', 'Set::clear', 'Set::drain', 'Set::extend', 'Set::iter', 'Set::into_iter', 'Set::union',
+               'Set::intersection', 'Set::difference', 'Set::symmetric_difference', 'Set::predicates', 'Set::sub', 'Set::clone+eq', 'Set::fmt', 'zst'],
+     floors={'allocator_self_checks': 1, 'references_range_checked': 1000},
+     assumptions=['the counting allocator is the process-wide #[global_allocator]; its self-check (a window around nothing reads 0, around Box::new reads >= 1) runs first and its failure makes the run inconclusive',
+                  'element types, closures and the formatting sink used inside windows do not allocate',
+                  'the no_std build clause is decided by the compiler (a build gate), not by an execution monitor: the library is built for x86_64-unknown-none with only `core` available',
+                  'only the windows listed in coverage_matrix were observed'],
+     title='no heap',
+     technique='runtime monitoring: counting global allocator read immediately before and after every public operation (allocation windows), address-range monitor on every returned reference, default and std feature builds; plus a compiler gate for the no_std build clause',
+     level_text='Exploration: millions of allocation windows, one public operation each, under a counting global allocator with non-allocating element types; any allocator call inside a window is a violation. Every reference handed out (lookups, indexing, iterators, entry API, get_disjoint_mut, set algebra) must lie inside the bytes of the container value. Both feature configurations are run. The clause "the crate builds without the standard library" is not observable by an execution monitor and is decided by building the library for a target that has no std (cargo +nightly build -Zbuild-std=core --target x86_64-unknown-none).',
+     level_note='The build clause is a compiler gate (outside the runtime-monitoring family, stated as such). Allocation behaviour of PANICKING operations is not examined (the panic machinery may allocate).',
+     design_ref='DESIGN.md section 3, C06')
+
+
 def claimed():
     return sorted(PLANS)
 
